@@ -223,6 +223,42 @@ Proof.
     destruct (jnum (h ./ "rate")) as [r|]; try destruct (b64_lt _ _ && _); close.
 Qed.
 
+(* 23: "3!a[2!n]11x: currency (three letters), number of days only for NOTICE, function one of the seven code words" *)
+Definition f23_value (f : jv) : bytes := jstr (f ./ "function_code") ++ days_text (f ./ "days") ++ jstr (f ./ "reference").
+Definition f23_functions : list string := ["BASE"; "CALL"; "COMMERCIAL"; "CURRENT"; "DEPOSIT"; "NOTICE"; "PRIME"].
+Definition f23_ok (v : bytes) : bool :=
+  Nat.leb 4 (List.length v)
+  && forallb (fun c => ascii_upper c || ascii_lower c) (firstn 3 v)
+  && (let rest := skipn 3 v in
+      if Nat.leb 2 (List.length rest) && forallb ascii_digit (firstn 2 rest)
+      then is (skipn 2 rest) "NOTICE"
+      else one_of rest f23_functions).
+Lemma notice_is_function : forall x, is x "NOTICE" = true -> one_of x f23_functions = true.
+Proof. intros x H. unfold one_of, f23_functions. cbn [existsb]. rewrite H. repeat rewrite orb_true_r. reflexivity. Qed.
+Theorem mt935_f23_T26_spec : forall m,
+  has_code "T26" (mt935_f23 m) = existsb (fun s => present (s ./ "23") && negb (f23_ok (f23_value (s ./ "23")))) (seqs m).
+Proof.
+  intro m. unfold mt935_f23. rewrite has_code_flat_map. apply existsb_ext. intro s.
+  destruct (present (s ./ "23")); [|reflexivity]. cbn [andb].
+  unfold mt935_f23_one, f23_ok. fold (f23_value (s ./ "23")). cbv zeta.
+  set (v := f23_value (s ./ "23")).
+  rewrite Nat.ltb_antisym. destruct (Nat.leb 4 (List.length v)); cbn [negb andb]; [|reflexivity].
+  rewrite !has_code_app. fold f23_functions.
+  destruct (forallb (fun c => ascii_upper c || ascii_lower c) (firstn 3 v)); cbn [andb];
+    [|reflexivity].
+  destruct (Nat.leb 2 (List.length (skipn 3 v)) && forallb ascii_digit (firstn 2 (skipn 3 v))); cbn [andb].
+  - destruct (is (skipn 2 (skipn 3 v)) "NOTICE") eqn:EN.
+    + rewrite (notice_is_function _ EN). reflexivity.
+    + destruct (one_of (skipn 2 (skipn 3 v)) f23_functions); reflexivity.
+  - destruct (one_of (skipn 3 v) f23_functions); reflexivity.
+Qed.
+
+(* MT940 C1 / MT942 C3 (repetition limits) are enforced by the parser, the validation functions report nothing *)
+Theorem mt940_c1_reports_nothing : forall m, mt940_c1 m = [].
+Proof. reflexivity. Qed.
+Theorem mt942_c3_reports_nothing : forall m, mt942_c3 m = [].
+Proof. reflexivity. Qed.
+
 (* ================================================================== statements: C27 "the first two characters of the currency
    code in fields ... must be the same" *)
 Theorem mt940_c2_spec : forall m,
